@@ -110,7 +110,14 @@ func oneCase(s kem.Scheme, k, e int) {
 	var pk, pk2 kem.PublicKey
 	var sk, sk2 kem.PrivateKey
 	if p := lib.Try("kem.DeriveKeyPair:"+name, seed, func() {
-		pk, sk = s.DeriveKeyPair(seed)
+		// the first pair is derived from a buffer that is overwritten as soon
+		// as the call returns (a caller wiping its seed): the keys must not
+		// change with it
+		seedIn := lib.Clone(seed)
+		pk, sk = s.DeriveKeyPair(seedIn)
+		for i := range seedIn {
+			seedIn[i] ^= 0xA5
+		}
 		pk2, sk2 = s.DeriveKeyPair(seed)
 	}); p != nil {
 		viol(s, "panic-derive", "seed", seed, "panic", p.Value)
@@ -140,7 +147,11 @@ func oneCase(s kem.Scheme, k, e int) {
 		viol(s, "public-mismatch", "seed", seed)
 	}
 
-	ct, shared, err := s.EncapsulateDeterministically(pk, eseed)
+	eseedIn := lib.Clone(eseed)
+	ct, shared, err := s.EncapsulateDeterministically(pk, eseedIn)
+	for i := range eseedIn {
+		eseedIn[i] ^= 0xA5
+	}
 	ctB, sharedB, errB := s.EncapsulateDeterministically(pk, eseed)
 	if err != nil || errB != nil {
 		viol(s, "encaps-error", "seed", seed, "eseed", eseed, "err", err)
